@@ -60,3 +60,7 @@ func Sign(pk [32]byte, msg [32]byte) [64]byte { panic("vh stub") }
 
 // Sha256 of a 32-byte preimage.
 func Sha256(pre [32]byte) [32]byte { panic("vh stub") }
+
+// GenuineID returns the ID of an element created by an earlier block (an
+// ideal-hash output that no hash derived in the current step can equal).
+func GenuineID(name string) [32]byte { panic("vh stub") }
